@@ -334,7 +334,7 @@ CHECKS = {
         "put nothing into the sink, a call never adds more than a prefix of one frame of <= max_len; reader_any_fragmentation + reader_roundtrip: (n+1) reads return the n decoded payloads "
         "in order then None; reader_truncation: a stream cut anywhere strictly inside a frame (prefix or payload) gives the complete frames' values then UnexpectedEof, never a value; "
         "reader_resync: an undecodable payload consumes exactly 4+len bytes; reader_alloc (every source behaviour): the buffer is left alone or has length <= max_len; "
-        "reader_oversize_rejected: InvalidLen with the buffer untouched; valCodec_roundtrip / decVal_noPanic: the codec the harness runs satisfies the round-trip hypothesis. "
+        "reader_oversize_rejected: InvalidLen with the buffer untouched; valCodec_roundtrip / decVal_noPanic: the codec the harness runs satisfies the round-trip hypothesis; valCodec_padded: a payload holding one item more than the value's decoder reads is delivered as the value (a frame is not required to hold exactly one item). "
         "Correspondence: ~150k fread/fwrite scenarios on the real crate over scripted std::io streams (all compositions of streams <=12 bytes x Interrupted placements, every truncation "
         "point, bad / empty / over-long frames, max_len in {len-1,len,len+1}, hostile prefixes with the reader's largest allocation request measured by a counting allocator, random longer "
         "ones incl. error / WouldBlock / Ok(0) events, 31..300 frames through one reader / writer), judged by the orchestrator's own frame/CBOR oracle and compared with the model; every fourth scenario "
